@@ -32,3 +32,26 @@ Definition api_cv_as_realizable_relaxed2 (v : val) : val :=
                        may_products_relaxed2 y [] ++ flat_map (may_products_relaxed2 y) (haplotypes false (in_vars y)))
                     (as_combos x (map cv_asrec (getL (argn 1 v)))) in
   VL (map (fun p => ofB (mem_seq (getS p) m)) (getL (argn 2 v))).
+
+(* [x; asrec; cds_end; peptides] -> for each peptide: it has an obliged derivation on the AS backbone and EVERY
+   obliged derivation starts at or behind the annotated stop codon (cds_end = transcript position of the stop
+   codon, moved with the event and the haplotype): signature of the known finding C01-stoploss (products in the
+   3'UTR behind a read-through stop codon) on an AS backbone *)
+Definition as_move_pos (r : asrec) (q : Z) : Z :=
+  if q <=? a_s r then q else if a_e r <=? q then q + as_delta r else a_s r.
+
+Definition api_cv_as_stoploss (v : val) : val :=
+  let x := cv_input (argn 0 v) in
+  let r := cv_asrec (argn 1 v) in
+  let ce := as_move_pos r (getZ (argn 2 v)) in
+  let y := as_apply_gen false x r in
+  let ders := flat_map (fun h =>
+                let hs := apply_hap (in_tx y) h in
+                flat_map (fun st =>
+                  let tr := translate_from hs st (map (shift h) (in_sec y)) in
+                  map (fun sp => match sp with (a, b, f, q) => (q, shift h ce <=? st + 3 * Z.of_nat a) end)
+                      (span_products y (must_nf y) (must_tail y) tr))
+                  (must_starts y hs))
+              ([] :: must_haps y) in
+  VL (map (fun p => let mine := filter (fun d => eq_seq (getS p) (fst d)) ders in
+                    ofB (nonempty mine && forallb snd mine)) (getL (argn 3 v))).
